@@ -84,18 +84,33 @@ def geometry(draw, max_wfs=4, max_n=7, max_layers=3):
     layer_alts = sorted(draw(st.sampled_from([0.0, 0.0, 500.0, 4000.0, 9000.0, 20000.0])) for _ in range(n_layers))
     layer_alts = [min(h, hmax) for h in layer_alts]
     r0s = [draw(gen.logfloat(0.05, 2.0)) for _ in range(n_layers)]
-    L0s = [draw(gen.logfloat(2.0, 200.0)) for _ in range(n_layers)]
-    return {"n_wfs": n_wfs, "pupil_masks": masks, "mask_kinds": kinds, "telescope_diameter": D, "subap_diameters": diams, "gs_altitudes": alts,
+    L0s = [draw(st.one_of(gen.logfloat(2.0, 200.0), gen.logfloat(200.0, 1e5))) for _ in range(n_layers)]
+    arg_types = draw(st.sampled_from(["lists", "lists", "arrays"]))
+    return {"arg_types": arg_types, "n_wfs": n_wfs, "pupil_masks": masks, "mask_kinds": kinds, "telescope_diameter": D, "subap_diameters": diams, "gs_altitudes": alts,
             "gs_positions": gspos, "wfs_wavelengths": wls, "n_layers": n_layers, "layer_altitudes": layer_alts, "layer_r0s": r0s, "layer_L0s": L0s}
 
 
 def build(cfg, threads=1, **over):
     c = dict(cfg)
     c.update(over)
-    cm = SC().CovarianceMatrix(c["n_wfs"], [np.array(m) for m in c["pupil_masks"]], c["telescope_diameter"], list(c["subap_diameters"]),
-                               list(c["gs_altitudes"]), [list(p) for p in c["gs_positions"]], list(c["wfs_wavelengths"]),
-                               c["n_layers"], list(c["layer_altitudes"]), list(c["layer_r0s"]), list(c["layer_L0s"]), threads)
-    return np.array(cm.make_covariance_matrix()), cm
+    if c.get("arg_types") == "arrays":
+        # the documented argument types: float64 ndarrays (kept by the caller, so in-place edits by the library are visible)
+        a = [np.array(m) for m in c["pupil_masks"]], np.array(c["subap_diameters"], dtype=float), np.array(c["gs_altitudes"], dtype=float), \
+            np.array(c["gs_positions"], dtype=float), np.array(c["wfs_wavelengths"], dtype=float), np.array(c["layer_altitudes"], dtype=float), \
+            np.array(c["layer_r0s"], dtype=float), np.array(c["layer_L0s"], dtype=float)
+    else:
+        a = [np.array(m) for m in c["pupil_masks"]], list(c["subap_diameters"]), list(c["gs_altitudes"]), [list(p) for p in c["gs_positions"]], \
+            list(c["wfs_wavelengths"]), list(c["layer_altitudes"]), list(c["layer_r0s"]), list(c["layer_L0s"])
+    import copy
+    before = copy.deepcopy(a)
+    cm = SC().CovarianceMatrix(c["n_wfs"], a[0], c["telescope_diameter"], a[1], a[2], a[3], a[4], c["n_layers"], a[5], a[6], a[7], threads)
+    out = np.array(cm.make_covariance_matrix())
+    for x, y, nm in zip(a, before, ("pupil_masks", "subap_diameters", "gs_altitudes", "gs_positions", "wfs_wavelengths", "layer_altitudes", "layer_r0s", "layer_L0s")):
+        same = all(np.array_equal(p, q) for p, q in zip(x, y)) if isinstance(x, list) and len(x) and isinstance(x[0], np.ndarray) else np.array_equal(np.asarray(x, dtype=object if isinstance(x, list) and len(x) and isinstance(x[0], list) else None), np.asarray(y, dtype=object if isinstance(y, list) and len(y) and isinstance(y[0], list) else None))
+        if not same:
+            from ..core import Violation
+            raise Violation("make_covariance_matrix modified its %s argument (%s)" % (nm, c.get("arg_types", "lists")))
+    return out, cm
 
 
 def classes_of(cfg):
@@ -106,6 +121,8 @@ def classes_of(cfg):
     cl.append("diam_equal" if len(set(cfg["subap_diameters"])) == 1 else "diam_different")
     offaxis = any(any(p) for p in cfg["gs_positions"]) and any(h > 0 for h in cfg["layer_altitudes"])
     cl.append("offaxis_at_altitude" if offaxis else "no_parallax")
+    cl.append("args_" + cfg.get("arg_types", "lists"))
+    cl.append("L0_over_r0_gt_1e5" if any(L / r > 1e5 for L, r in zip(cfg["layer_L0s"], cfg["layer_r0s"])) else "L0_over_r0_le_1e5")
     return cl, offaxis
 
 
